@@ -120,11 +120,25 @@ Definition add_peer_open (r : reg) (c : conn) (pe : peer) : reg * bool :=
         conns := cn; streams := put p [] (streams r);
         ctxs := ctxs r; sw := sw r; notes := notes r; started := started r;
         panicked := panicked r |}, false).
+(* a connection that has already closed is neither tracked nor registered, and the call reports
+   "exists" so that the inbound path does not announce the peer *)
 Definition add_peer (r : reg) (c : conn) (pe : peer) (closed : bool) : reg * bool :=
-  if closed then (r, has (p_addr pe) (underlays r)) else add_peer_open r c pe.
+  if closed then (r, true) else add_peer_open r c pe.
 (* before commit 2ee23d5: IsClosed was not consulted *)
 Definition add_peer_v0 (r : reg) (c : conn) (pe : peer) (closed : bool) : reg * bool :=
   add_peer_open r c pe.
+(* first form of that repair (amended since): the closed branch answered whether the address
+   was known, so a closed connection of an unknown peer was announced without being registered *)
+Definition add_peer_v1 (r : reg) (c : conn) (pe : peer) (closed : bool) : reg * bool :=
+  if closed then (r, has (p_addr pe) (underlays r)) else add_peer_open r c pe.
+
+(* tail of handleConnectReq (inbound): exists := addPeer(conn, peer); if exists { reset; return };
+   notifier.Connected( *peer ).  Connect (outbound) never calls the notifier. *)
+Definition inbound_announces_with (ap : reg -> conn -> peer -> bool -> reg * bool)
+  (r : reg) (c : conn) (pe : peer) (closed : bool) : bool :=
+  Generated.c14_inbound_announces && negb (snd (ap r c pe closed)).
+Definition inbound_announces := inbound_announces_with add_peer.
+Definition outbound_announces : bool := Generated.c14_outbound_announces.
 
 Definition get_peer (r : reg) (p : pid) : option peer := get p (overlays r).
 Definition get_peer_id (r : reg) (a : addr) : option pid := get a (underlays r).
